@@ -64,6 +64,8 @@ def panic_site(stderr: str) -> str | None:
         kind = "oom"
     elif "concurrent map" in s:
         kind = "concurrent-map"
+    elif "interface conversion" in s:
+        kind = "type-assertion"
     else:
         kind = "explicit"
     frames = re.findall(r"^(github\.com/microsoft/yardl/tooling/[^\s(]+)", s, re.M)
